@@ -324,6 +324,8 @@ pub fn gen(r: &mut Rng) -> (Program, World) {
     // inputs: `source` from Sender; optionally `extra_in` from Receiver carrying an R datum
     let second = r.chance(1, 2);
     let datum_on_source = r.chance(1, 3);
+    // a source made of several UTxOs holding the very same amounts (`input* source`): what it stands for is their sum
+    let many_source = !datum_on_source && r.chance(1, 3);
     let mut datum_inputs = vec![];
     if datum_on_source {
         datum_inputs.push("source".to_string());
@@ -395,7 +397,7 @@ pub fn gen(r: &mut Rng) -> (Program, World) {
 
     // min_amount of source: everything paid plus fees
     let need = terms.iter().skip(1).fold(terms[0].clone(), |acc, x| E::Add(Box::new(acc), Box::new(x.clone())));
-    t.inputs.push(InputBlock { name: "source".into(), from: Some(E::Id("Sender".into())), min_amount: Some(need), datum_is: if datum_on_source { Some(Ty::Custom("R".into())) } else { None }, ..Default::default() });
+    t.inputs.push(InputBlock { name: "source".into(), many: many_source, from: Some(E::Id("Sender".into())), min_amount: Some(need), datum_is: if datum_on_source { Some(Ty::Custom("R".into())) } else { None }, ..Default::default() });
     if second {
         t.inputs.push(InputBlock { name: "extra_in".into(), from: Some(E::Id("Receiver".into())), min_amount: Some(E::Call("Ada".into(), vec![E::Num(1)])), datum_is: Some(Ty::Custom("R".into())), ..Default::default() });
         // its value goes back to where it came from
@@ -454,6 +456,29 @@ pub fn gen(r: &mut Rng) -> (Program, World) {
     // the ledger state: one UTxO per party, rich enough
     for (k, (name, _)) in parties.iter().enumerate() {
         let with_datum = (name == "Sender" && datum_on_source) || (name == "Receiver" && second);
+        if name == "Sender" && many_source {
+            // two UTxOs with the very same lovelace, the tokens split between them: a transaction that pays out of
+            // both token classes needs both, and `source` is then twice that lovelace
+            let lovelace = 1_000_000_000 + r.below(900_000_000) as i128;
+            let tk = 1_000_000_000_000 + r.below(1000) as i128;
+            w.utxos.push(UtxoSpec {
+                party: name.clone(),
+                txid: vec![0x40; 32],
+                index: 0,
+                lovelace,
+                tokens: vec![(POLICY_TOK.to_vec(), b"TK".to_vec(), tk), (POLICY_TOK.to_vec(), b"T2".to_vec(), tk)],
+                datum: None,
+            });
+            w.utxos.push(UtxoSpec {
+                party: name.clone(),
+                txid: vec![0x41; 32],
+                index: 1,
+                lovelace,
+                tokens: vec![(POLICY_ANY.to_vec(), b"ANY".to_vec(), tk)],
+                datum: None,
+            });
+            continue;
+        }
         w.utxos.push(UtxoSpec {
             party: name.clone(),
             txid: vec![0x10 + k as u8; 32],
